@@ -77,6 +77,8 @@ def _do_actions(chart, acts, i):
             chart.scribble(a[1])
         elif op == "mark":
             pass
+        elif op == "clear_spy":
+            chart.clear_spy()           # a handler wipes the full spy in the middle of its step
         elif op == "current_state":
             chart.current_state()       # a handler asking where the chart is (a reflection pass through the leaf state)
         elif op == "raise":
@@ -159,7 +161,20 @@ def _make_family(decorate):
     return fns
 
 
-FAMILIES = {"plain": _make_family(None), "spied": _make_family(hsm.spy_on)}
+def _make_family_same_name(decorate):
+    """every state function is called `idle` (distinct functions, e.g. from different modules, sharing a name):
+    the processor knows states by function object, only the logs use the name"""
+    fns = []
+    for i in range(NSTATES):
+        ns = {"_h": _h}
+        exec("def idle(chart, e):\n  return _h(%d, chart, e)\n" % i, ns)
+        fn = ns["idle"]
+        fns.append(decorate(fn) if decorate else fn)
+    return fns
+
+
+FAMILIES = {"plain": _make_family(None), "spied": _make_family(hsm.spy_on),
+            "plain_same_name": _make_family_same_name(None), "spied_same_name": _make_family_same_name(hsm.spy_on)}
 NAMES = ["s%d" % i for i in range(NSTATES)]
 
 
@@ -203,4 +218,9 @@ def config_of(chart):
     n = getattr(f, "__name__", None)
     if n == "top":
         return -1
+    S = getattr(T, "S", None)
+    if S is not None:               # by identity first (families whose functions share a name)
+        for i, g in enumerate(S):
+            if g is f:
+                return i
     return NAMES.index(n)
